@@ -5,11 +5,11 @@ CONSTANTS
   MaxMods = 4
   MaxExt = 2
   MaxToggle = 2
+  IllMaxStep = 2
   Depth = 7
 INIT Init
 NEXT Next
 VIEW View
-CONSTRAINT Bound
 ACTION_CONSTRAINT Emit
 INVARIANTS BindLatest LocalBinding RedefRejected ConstructErrors UndefinedReported EnvIsLatest Shape
 PROPERTIES OldBindingsStable
